@@ -479,3 +479,53 @@ func (c *Ctx) connectionScope() map[*ssa.Function]bool {
 	c.gScope = out
 	return out
 }
+
+// failEdges returns the edges taken when error value v is non-nil, following v through phis
+// (err = f(); ...; if err != nil): when v is non-nil and flows into a phi, the phi's non-nil edge is taken.
+func failEdges(v ssa.Value) []edge {
+	var out []edge
+	seen := map[ssa.Value]bool{}
+	var walk func(v ssa.Value)
+	walk = func(v ssa.Value) {
+		if seen[v] {
+			return
+		}
+		seen[v] = true
+		out = append(out, nilEdges(v, false)...)
+		for _, r := range core.Referrers(v) {
+			if ph, ok := r.(*ssa.Phi); ok {
+				walk(ph)
+			}
+		}
+	}
+	walk(v)
+	return out
+}
+
+// flowsToReturn reports whether error value v is returned (directly, through a spilled result or a phi).
+func flowsToReturn(v ssa.Value) bool {
+	seen := map[ssa.Value]bool{}
+	var walk func(v ssa.Value) bool
+	walk = func(v ssa.Value) bool {
+		if seen[v] {
+			return false
+		}
+		seen[v] = true
+		for _, r := range core.Referrers(v) {
+			switch x := r.(type) {
+			case *ssa.Return:
+				return true
+			case *ssa.Store:
+				if _, ok := x.Addr.(*ssa.Alloc); ok {
+					return true
+				}
+			case *ssa.Phi:
+				if walk(x) {
+					return true
+				}
+			}
+		}
+		return false
+	}
+	return walk(v)
+}
